@@ -36,6 +36,8 @@ import (
 	"github.com/rpcpool/yellowstone-faithful/indexmeta"
 	"github.com/rpcpool/yellowstone-faithful/ipld/ipldbindcode"
 	"github.com/rpcpool/yellowstone-faithful/iplddecoders"
+	metalatest "github.com/rpcpool/yellowstone-faithful/parse_legacy_transaction_status_meta/v-latest"
+	metaoldest "github.com/rpcpool/yellowstone-faithful/parse_legacy_transaction_status_meta/v-oldest"
 	solanatxmetaparsers "github.com/rpcpool/yellowstone-faithful/solana-tx-meta-parsers"
 	"github.com/rpcpool/yellowstone-faithful/tooling"
 	"github.com/rpcpool/yellowstone-faithful/zz_verif/cargen"
@@ -129,6 +131,22 @@ func vfC12setup() (*vfC12World, error) {
 			}
 		}
 		copy(w.sample[:], ep.Txs[0].Sig[:])
+		// transaction-status metadata in the two legacy (bincode) layouts the server still parses
+		{
+			inner := []metalatest.InnerInstructions{{Index: 1, Instructions: []metalatest.CompiledInstruction{{ProgramIdIndex: 2}}}}
+			for _, m := range []metalatest.TransactionStatusMeta{
+				{Status: &metalatest.Result__Ok{}, Fee: 5000, PreBalances: []uint64{1, 2, 3}, PostBalances: []uint64{1, 2, 3}},
+				{Status: &metalatest.Result__Ok{}, Fee: 1 << 40, PreBalances: []uint64{9}, PostBalances: []uint64{9}, InnerInstructions: &inner},
+			} {
+				if b, err := m.BincodeSerialize(); err == nil {
+					w.metas = append(w.metas, b)
+				}
+			}
+			mo := metaoldest.TransactionStatusMeta{Status: &metaoldest.Result__Ok{}, Fee: 5000, PreBalances: []uint64{4, 5}, PostBalances: []uint64{4, 5}}
+			if b, err := mo.BincodeSerialize(); err == nil {
+				w.metas = append(w.metas, b)
+			}
+		}
 		// legacy formats
 		{
 			lp := filepath.Join(w.dir, "legacy-sigexists")
